@@ -40,7 +40,7 @@ const (
 
 // Op is one atomic step of a schedule.
 type Op struct {
-	K      string `json:"k"`           // announce deliver forget advance connect disconnect addlocal cleanup
+	K      string `json:"k"`           // announce withdraw deliver forget advance connect disconnect addlocal cleanup
 	A      int    `json:"a,omitempty"` // node (announce/forget/addlocal/cleanup) or first end
 	B      int    `json:"b,omitempty"` // second end (connect/disconnect)
 	I      int    `json:"i,omitempty"` // in-flight index (deliver)
@@ -57,8 +57,10 @@ type Op struct {
 type Case struct {
 	Name     string `json:"name"`
 	N        int    `json:"n"`
-	Limits   []int  `json:"limits"`    // routing.max_hops per node (0 = not set: flooder default)
-	UseAgent bool   `json:"use_agent"` // nodes are built by agent.New(config)
+	Limits   []int  `json:"limits"`             // routing.max_hops per node (0 = not set: flooder default)
+	UseAgent bool   `json:"use_agent"`          // nodes are built by agent.New(config)
+	MgmtKey  bool   `json:"mgmt_key,omitempty"` // agent mode: management.public_key is configured (sealed box present)
+	NoModel  bool   `json:"no_model,omitempty"` // judged by the monitors only (outside the assumptions of the model)
 	Ops      []Op   `json:"ops"`
 	Settle   bool   `json:"settle"` // informational: the schedule ends quiescent
 }
@@ -78,10 +80,11 @@ type AdvObs struct {
 }
 
 type MsgObs struct {
-	Step int    `json:"step"`
-	From int    `json:"from"`
-	To   int    `json:"to"`
-	Adv  AdvObs `json:"adv"`
+	Withdraw bool   `json:"withdraw,omitempty"` // ROUTE_WITHDRAW frame (no path)
+	Step     int    `json:"step"`
+	From     int    `json:"from"`
+	To       int    `json:"to"`
+	Adv      AdvObs `json:"adv"`
 }
 
 type EntryObs struct {
@@ -124,15 +127,16 @@ type StepObs struct {
 	Sends    int `json:"sends"`    // frames sent during the step
 	InFlight int `json:"inflight"` // size of the in-flight bag after the step
 	// deliver steps: the frame that was handed to the receiver
-	DelFrom   int        `json:"del_from,omitempty"`
-	DelTo     int        `json:"del_to,omitempty"`
-	DelOrigin int        `json:"del_origin,omitempty"`
-	DelSeq    uint64     `json:"del_seq,omitempty"`
-	DelPath   []int      `json:"del_path,omitempty"`
-	DelSeenBy []int      `json:"del_seen_by,omitempty"`
-	DelRoutes []RouteObs `json:"del_routes,omitempty"`
-	Applied   bool       `json:"applied"`
-	Now       int64      `json:"now"` // virtual seconds since the start of the case, after the step
+	DelFrom     int        `json:"del_from,omitempty"`
+	DelTo       int        `json:"del_to,omitempty"`
+	DelOrigin   int        `json:"del_origin,omitempty"`
+	DelSeq      uint64     `json:"del_seq,omitempty"`
+	DelPath     []int      `json:"del_path,omitempty"`
+	DelSeenBy   []int      `json:"del_seen_by,omitempty"`
+	DelRoutes   []RouteObs `json:"del_routes,omitempty"`
+	DelWithdraw bool       `json:"del_withdraw,omitempty"`
+	Applied     bool       `json:"applied"`
+	Now         int64      `json:"now"` // virtual seconds since the start of the case, after the step
 }
 
 // Obs is the observation of one run.
@@ -152,6 +156,7 @@ type Obs struct {
 
 type wire struct {
 	from, to int
+	withdraw bool
 	payload  []byte
 	origin   int
 	seq      uint64
@@ -218,20 +223,26 @@ func (s *sender) SendToPeer(peerID identity.AgentID, frame *protocol.Frame) erro
 	if j >= s.nt.n || !s.nt.adj[s.me][j] {
 		return fmt.Errorf("peer not connected")
 	}
-	if frame.Type != protocol.FrameRouteAdvertise {
+	if frame.Type != protocol.FrameRouteAdvertise && frame.Type != protocol.FrameRouteWithdraw {
 		s.nt.obs.Other++
 		return nil
 	}
 	p := append([]byte(nil), frame.Payload...)
 	s.nt.sends++
-	adv, err := protocol.DecodeRouteAdvertise(p)
 	m := MsgObs{Step: s.nt.step, From: s.me, To: j}
-	if err != nil {
+	if frame.Type == protocol.FrameRouteWithdraw {
+		m.Withdraw = true
+		if wd, err := protocol.DecodeRouteWithdraw(p); err != nil {
+			m.Adv = AdvObs{Origin: 998}
+		} else {
+			m.Adv = s.nt.withdrawObs(wd)
+		}
+	} else if adv, err := protocol.DecodeRouteAdvertise(p); err != nil {
 		m.Adv = AdvObs{Origin: 998}
 	} else {
 		m.Adv = s.nt.advObs(adv)
 	}
-	s.nt.inflight = append(s.nt.inflight, wire{from: s.me, to: j, payload: p, origin: m.Adv.Origin, seq: m.Adv.Seq})
+	s.nt.inflight = append(s.nt.inflight, wire{from: s.me, to: j, withdraw: m.Withdraw, payload: p, origin: m.Adv.Origin, seq: m.Adv.Seq})
 	s.nt.obs.Log = append(s.nt.obs.Log, m)
 	return nil
 }
@@ -359,6 +370,16 @@ func sortRoutes(rs []RouteObs) {
 	})
 }
 
+// withdrawObs: a withdrawal is observed like an advertisement without a path.
+func (nt *Net) withdrawObs(wd *protocol.RouteWithdraw) AdvObs {
+	o := AdvObs{Origin: nt.idx(wd.OriginAgent), Seq: wd.Sequence, SeenBy: nt.idxs(wd.SeenBy), Path: []int{}}
+	for _, r := range wd.Routes {
+		o.Routes = append(o.Routes, nt.routeObs(r))
+	}
+	sortRoutes(o.Routes)
+	return o
+}
+
 func (nt *Net) advObs(adv *protocol.RouteAdvertise) AdvObs {
 	o := AdvObs{Origin: nt.idx(adv.OriginAgent), Seq: adv.Sequence, SeenBy: nt.idxs(adv.SeenBy)}
 	for _, r := range adv.Routes {
@@ -380,7 +401,7 @@ func (nt *Net) advObs(adv *protocol.RouteAdvertise) AdvObs {
 
 var scratchDir string
 
-func agentConfig(i, limit int) *config.Config {
+func agentConfig(i, limit int, mgmt bool) *config.Config {
 	cfg := config.Default()
 	cfg.Agent.ID = NodeID(i).String()
 	if scratchDir == "" {
@@ -395,6 +416,9 @@ func agentConfig(i, limit int) *config.Config {
 	cfg.Agent.LogLevel = "error"
 	if limit > 0 {
 		cfg.Routing.MaxHops = limit
+	}
+	if mgmt {
+		cfg.Management.PublicKey = strings.Repeat("5a", 32)
 	}
 	return cfg
 }
@@ -433,7 +457,7 @@ func newNet(c *Case) *Net {
 			limit = c.Limits[i]
 		}
 		if c.UseAgent {
-			cfg := agentConfig(i, limit)
+			cfg := agentConfig(i, limit, c.MgmtKey)
 			if err := cfg.Validate(); err != nil {
 				panic(fmt.Sprintf("config.Validate: %v", err))
 			}
@@ -567,12 +591,25 @@ func (nt *Net) apply(op Op) (applied bool, result int) {
 			return false, 2
 		}
 		nt.fl[op.A].AnnounceLocalRoutes()
+	case "withdraw":
+		// agent.Stop of an exit: WithdrawLocalRoutes
+		if !nt.ok(op.A) {
+			return false, 2
+		}
+		nt.fl[op.A].WithdrawLocalRoutes()
 	case "deliver":
 		if op.I < 0 || op.I >= len(nt.inflight) {
 			return false, 2
 		}
 		w := nt.inflight[op.I]
-		if adv, err := protocol.DecodeRouteAdvertise(w.payload); err == nil {
+		if w.withdraw {
+			if wd, err := protocol.DecodeRouteWithdraw(w.payload); err == nil {
+				a := nt.withdrawObs(wd)
+				nt.del = &StepObs{DelFrom: w.from, DelTo: w.to, DelOrigin: a.Origin, DelSeq: a.Seq, DelPath: a.Path, DelSeenBy: a.SeenBy, DelRoutes: a.Routes, DelWithdraw: true}
+			} else {
+				nt.del = &StepObs{DelFrom: w.from, DelTo: w.to, DelOrigin: 998, DelWithdraw: true}
+			}
+		} else if adv, err := protocol.DecodeRouteAdvertise(w.payload); err == nil {
 			a := nt.advObs(adv)
 			nt.del = &StepObs{DelFrom: w.from, DelTo: w.to, DelOrigin: a.Origin, DelSeq: a.Seq, DelPath: a.Path, DelSeenBy: a.SeenBy, DelRoutes: a.Routes}
 		} else {
@@ -580,6 +617,25 @@ func (nt *Net) apply(op Op) (applied bool, result int) {
 		}
 		if !op.Dup {
 			nt.inflight = append(nt.inflight[:op.I:op.I], nt.inflight[op.I+1:]...)
+		}
+		if w.withdraw {
+			// exactly what agent.handleRouteWithdraw does with a ROUTE_WITHDRAW frame
+			frame := &protocol.Frame{Type: protocol.FrameRouteWithdraw, StreamID: protocol.ControlStreamID, Payload: w.payload}
+			if nt.agents[w.to] != nil {
+				nt.agents[w.to].VerifHandleRouteWithdraw(nt.ids[w.from], frame)
+				result = 2
+			} else {
+				wd, err := protocol.DecodeRouteWithdraw(frame.Payload)
+				if err != nil {
+					return true, 0
+				}
+				if nt.fl[w.to].HandleRouteWithdraw(nt.ids[w.from], wd.OriginAgent, wd.Sequence, wd.Routes, wd.SeenBy) {
+					result = 1
+				} else {
+					result = 0
+				}
+			}
+			break
 		}
 		// exactly what agent.handleRouteAdvertise does with a ROUTE_ADVERTISE frame
 		frame := &protocol.Frame{Type: protocol.FrameRouteAdvertise, StreamID: protocol.ControlStreamID, Payload: w.payload}
